@@ -55,15 +55,15 @@ def run(chk):
                    "against the real planes(p,M), exact equality of DepthToZ/ZToDepth with the transcript formulas at float and double",
                    "Spec/FrustumSpec.lean (regions, plane equation, LenSpec); long double evaluation as the oracle of the measured residue"]
     chk.assumptions = ["Vec3::length is an opaque call: theorems that depend on normalisation assume LenSpec (Gen.V3.length tmin sqrt) "
-                       "(>= 0, squares to x^2+y^2+z^2); shown for the extracted 65-path length over R with Real.sqrt (lenSpec_real)",
+                       "(>= 0, squares to x^2+y^2+z^2); shown for the extracted 129-path length over R with Real.sqrt (lenSpec_real)",
                        "atan2/tan enter set(fov)/fovx/fovy as parameters with the hypotheses atan2 (n tan h) n = h at h = +-fov/2 "
                        "(example over R: arctan (y/x), x > 0, |h| < pi/2)",
                        "planes(p,M) = planes(p) mapped by M is proved for affine M with positive determinant (rigid, uniform and "
                        "non-uniform positive scale); mirrored M (normals then point inwards: measured) and projective M are NOT covered (_partial)",
-                       "the long truncation of ZToDepth/DepthToZ and all rounding are NOT proved: measured (residue). The RANDOM residue sweep "
-                       "excludes perspective frusta with (far/near)^2*width*height > 1e15 (bound calibration); that domain is inside the "
-                       "property's quantifier and is covered by the fixed probe obligation, which FAILS on the current tree: recorded finding "
-                       "planesM:float:far-plane-normal-overflow (Vec3::length overflows at float, far-plane normal (0,0,0), interior point culled)"]
+                       "the long truncation of ZToDepth/DepthToZ and all rounding are NOT proved: measured (residue). The random residue sweep has "
+                       "no domain exclusion any more (far/near up to 1e6 with wide windows included, float and double): the former finding "
+                       "planesM:float:far-plane-normal-overflow was repaired by /repo 16a5ca8 (Vec length() takes the scaled path on overflow); "
+                       "its input is kept as the full-strength obligation probe:far-plane, which must pass"]
     chk.rule = ("theorems: all frusta/points/matrices over any ordered field under the stated non-degeneracy hypotheses. "
                 "TV: structured inputs incl. zeros, signed zeros, extremes. c16_corr: frusta with near over 6 decades, far/near in "
                 "{1.001 … 1e6}, asymmetric/off-axis windows, both kinds, float and double; random rigid+uniform-scale cameras; objects on, "
@@ -167,7 +167,7 @@ def run(chk):
                      {"line": l[:900], "replay_cmd": "c16_corr %d %d" % (chk.seed, n)}, True)
         if not okrun:
             chk.fail("c16_corr", "c16_corr:run", "correspondence harness did not run", {"output": out[-1500:]}, False)
-        # fixed probe of the domain excluded from the random sweep: far/near = 1e6 with a window of several near distances, float,
+        # fixed probe (the input of the repaired finding planesM:float:far-plane-normal-overflow): far/near = 1e6 with a window of several near distances, float,
         # identity camera.  Expected: far plane (0,0,-1 | far) and the interior point visible.
         pm = re.search(r"C16PROBE far-plane (frustum=\S+) camera=identity planes\(p,M\)\[5\]\.normal=\(([^,]+),([^,]+),([^)]+)\) distance=(\S+) "
                        r"point=(\S+) isVisible=(\d)", out)
